@@ -289,7 +289,7 @@ pub fn main_c13(env: &Env, tier: &str, seed: u64, replay: Option<&str>) -> i32 {
             }
         };
     }
-    let (n_random, n_hash) = if tier == "thorough" { (40000, 12) } else { (1500, 2) };
+    let (n_random, n_hash) = if tier == "thorough" { (30000, 6) } else { (1500, 2) };
     let mut placements = lattice(seed, tier == "thorough");
     let n_lattice = placements.len();
     for i in 0..n_random {
